@@ -114,6 +114,11 @@ def handleCtor (fs : List (String × String)) : String :=
     let specOk := !(got.startsWith "panic") && (if bigEnough ∧ ¬ (misaligned ∧ ¬ pixelKinds) then got == "ok" else got != "ok")
     let m : Option String := if model == got then none else some s!"model={model}"
     let s : Option String := if specOk then none else some s!"{kind} {W}x{H} psize={psize} len={len} mis={mis}: got {got}"
+    -- C03: an image the constructor accepted was then handed to the safe APIs (`use=`): none of them may panic
+    let s : Option String := match s, getField fs "use" with
+      | some e, _ => some e
+      | none, some u => if u.startsWith "panic" then some s!"{kind} {W}x{H} psize={psize} len={len} mis={mis}: accepted by the constructor, then used through the safe API: {u.take 160}" else none
+      | none, none => none
     match m, s with
     | none, none => "OK"
     | some m, none => "MODEL-DIFF " ++ m
